@@ -434,6 +434,7 @@ def normalise_tree(n):
             n["stmts"] = normalise_tree(n["stmts"])
             n["expr"] = normalise_tree(n["expr"]) if n.get("expr") is not None else None
         control.scalarise_struct_local(n)
+        control.replace_to_assign(n)
         control.ref_alias(n)
         control.for_from_next_loops(n)
         _distribute_fn_select(n)
